@@ -9,12 +9,12 @@ from vlib.runner import Outcome, call
 
 ID = "C19"
 RULE = (
-    "Paired entry/exit tables (2..14 particles element-wise, optional PRNG bulk up to 60; 1..3 tomograms; identical ids "
-    "and row order; exit site = entry site + a drawn displacement) from two families: dense clouds in a box of 1.5..5 x "
+    "Paired entry/exit tables (2..40 particles drawn element-wise, so that failures shrink by deleting particles; 1..3 tomograms; identical ids "
+    "and row order; exit site = entry site + a drawn displacement) from two families: dense clouds in a box of 0.8..5 x "
     "max_distance with displacements comparable to max_distance (this family reaches the suffix / prefix / both-sides / "
     "cut branches), and constructive polylines (consecutive members placed so that exit_i -> entry_{i+1} is within a "
     "drawn fraction of max_distance) with free particles and rows permuted so that chains are discovered from the "
-    "middle, and integer-lattice layouts whose exit->entry distances hit min_distance / max_distance exactly (3-4-5 steps); max_distance 1..20, min_distance in {0, 0.2..1}. Oracle (validity): output ids == input ids as multisets; "
+    "middle, corpus-based mutation of saved branch-reaching inputs (jitter, row permutation, dropped/duplicated particle, threshold scaling, duplication into a second tomogram), and integer-lattice layouts whose exit->entry distances hit min_distance / max_distance exactly (3-4-5 steps); max_distance 1..20, min_distance in {0, 0.2..1}. Oracle (validity): output ids == input ids as multisets; "
     "per (tomogram, object) order numbers are exactly 1..m; for consecutive members a,b dist(exit_a, entry_b) lies in "
     "(min, max] and equals a's recorded distance (1e-6); all other fields of every particle unchanged. Non-trivial: a "
     "merge branch fired (observed by wrapping ribana.add_chain_suffix/add_chain_prefix from the harness); labels report "
@@ -32,15 +32,16 @@ unit = st.floats(0, 1, allow_nan=False, width=32).map(lambda v: round(float(v), 
 sym = st.floats(-1, 1, allow_nan=False, width=32).map(lambda v: round(float(v), 4))
 
 
+pt = st.tuples(unit, unit, unit, sym, sym, sym, st.sampled_from([1, 1, 1, 2]))
+
+
 @st.composite
 def cloud_case(draw):
-    n = draw(st.integers(2, 14))
+    pts = draw(st.lists(pt, min_size=2, max_size=draw(st.sampled_from([8, 14, 25, 40]))))
     return {"family": "cloud", "dmax": draw(st.sampled_from([1.0, 2.0, 3.0, 5.0, 8.0, 20.0])), "dmin": draw(st.sampled_from([0.0, 0.0, 0.2, 0.5, 1.0])),
-            "box": draw(st.floats(1.5, 5.0, allow_nan=False)), "disp": draw(st.floats(0.2, 1.5, allow_nan=False)),
-            "entry": [[draw(unit), draw(unit), draw(unit)] for _ in range(n)], "dvec": [[draw(sym), draw(sym), draw(sym)] for _ in range(n)],
-            "tomo": [draw(st.integers(1, draw(st.integers(1, 3)))) for _ in range(n)] if False else [draw(st.integers(1, 2)) if draw(st.integers(0, 3)) == 0 else 1 for _ in range(n)],
-            "bulk": draw(st.one_of(st.none(), st.none(), st.fixed_dictionaries({"seed": st.integers(0, 2**31 - 1), "n": st.integers(1, 60)}))),
-            "ids_seed": draw(st.integers(0, 10**6))}
+            "box": draw(st.one_of(st.floats(0.8, 2.5, allow_nan=False), st.floats(1.5, 5.0, allow_nan=False))), "disp": draw(st.floats(0.2, 1.5, allow_nan=False)),
+            "entry": [list(p[:3]) for p in pts], "dvec": [list(p[3:6]) for p in pts], "tomo": [p[6] for p in pts],
+            "bulk": None, "ids_seed": draw(st.integers(0, 10**6))}
 
 
 @st.composite
@@ -71,8 +72,31 @@ def lattice_case(draw):
             "entry": pts, "exit": ex, "tomo": [1 if draw(st.integers(0, 4)) else 2 for _ in range(n)], "ids_seed": draw(st.integers(0, 10**6))}
 
 
+def _corpus():
+    """saved inputs that reached the rare merge branches (committed regress files): seeds for mutation-based generation."""
+    import glob, json, os
+
+    out = []
+    for f in sorted(glob.glob(os.path.join(os.path.dirname(os.path.dirname(os.path.abspath(__file__))), "regress", "C19", "*.json"))):
+        c = json.load(open(f))["case"]
+        if c.get("family") == "explicit":
+            out.append(c)
+    return out or [{"family": "explicit", "dmax": A1["dmax"], "dmin": 0.0, "entry": A1["entry"], "exit": A1["exit"], "tomo": [1] * 5, "ids_seed": 0}]
+
+
+@st.composite
+def mutate_case(draw):
+    """corpus-based: a saved branch-reaching input, perturbed (jitter, row permutation, dropped / duplicated particle, threshold scale)."""
+    corpus = _corpus()
+    return {"family": "mutate", "base": draw(st.integers(0, len(corpus) - 1)), "seed": draw(st.integers(0, 2**31 - 1)),
+            "jitter": draw(st.sampled_from([0.0, 0.0, 0.005, 0.02, 0.08, 0.2])), "permute": draw(st.booleans()),
+            "drop": draw(st.one_of(st.none(), st.integers(0, 40))), "dup": draw(st.one_of(st.none(), st.integers(0, 40))),
+            "scale": draw(st.sampled_from([1.0, 1.0, 0.97, 1.03, 0.9, 1.1])), "dmin": draw(st.sampled_from([0.0, 0.0, 0.3])),
+            "second_tomo": draw(st.booleans()), "ids_seed": draw(st.integers(0, 10**6))}
+
+
 def strategy(tier):
-    return st.one_of(cloud_case(), cloud_case(), cloud_case(), poly_case(), lattice_case())
+    return st.one_of(cloud_case(), cloud_case(), poly_case(), lattice_case(), mutate_case(), mutate_case())
 
 
 A1 = {"entry": [[2.54616, 5.11083, 5.730353], [8.538923, 9.564001, 3.377749], [6.229608, 6.787277, 1.110418], [4.690384, 2.070112, 7.364714], [3.46794, 8.013815, 2.112646]],
@@ -92,7 +116,26 @@ def corner_cases(tier):
 
 def build(case):
     fam = case["family"]
-    if fam in ("explicit", "lattice"):
+    if fam == "mutate":
+        base = _corpus()[case["base"] % len(_corpus())]
+        rng = np.random.default_rng(case["seed"])
+        E, X, tomo = np.array(base["entry"], float), np.array(base["exit"], float), np.array(base["tomo"], float)
+        dm = base["dmax"]
+        E = E + rng.normal(0, 1, E.shape) * case["jitter"] * dm
+        X = X + rng.normal(0, 1, X.shape) * case["jitter"] * dm
+        if case["dup"] is not None:
+            j = case["dup"] % len(E)
+            off = rng.normal(0, 0.3 * dm, 3)
+            E, X, tomo = np.vstack([E, E[j] + off]), np.vstack([X, X[j] + off]), np.append(tomo, tomo[j])
+        if case["drop"] is not None and len(E) > 2:
+            j = case["drop"] % len(E)
+            E, X, tomo = np.delete(E, j, 0), np.delete(X, j, 0), np.delete(tomo, j)
+        if case["permute"]:
+            perm = rng.permutation(len(E))
+            E, X, tomo = E[perm], X[perm], tomo[perm]
+        if case["second_tomo"]:  # the same configuration a second time in another tomogram, shifted: chains must not interact
+            E, X, tomo = np.vstack([E, E + 3.0]), np.vstack([X, X + 3.0]), np.concatenate([tomo, tomo + 1])
+    elif fam in ("explicit", "lattice"):
         E, X, tomo = np.array(case["entry"], float), np.array(case["exit"], float), np.array(case["tomo"], float)
     elif fam == "cloud":
         L = case["box"] * case["dmax"]
@@ -166,6 +209,9 @@ def run(case):
     _install()
     E, X, tomo, ids = build(case)
     n = len(E)
+    if case["family"] == "mutate":
+        base = _corpus()[case["base"] % len(_corpus())]
+        case = dict(case, dmax=base["dmax"] * case["scale"])
     dmax, dmin = float(case["dmax"]), float(case["dmin"])
     if n < 2:
         out.filtered = "fewer_than_2_particles"
